@@ -11,11 +11,12 @@ HAVE = os.path.exists(os.path.join(core.COQ, PROPS_FILE))
 def check(run):
     if not HAVE: run.level = 'exploration'
     run.cov['trusted_base'] += [
+        "refinement check (dvlib/refine.py + DE.ARExec): every simulated execution is replayed inside Coq, label by label, as an execution of DE.AbstractRaft from ainit (aexec, proved sound w.r.t. astep: Refine_exec_sound / Refine_trace_reaches) and the abstract state is compared with the observed terms (concrete = abstract + 1), logs and commit indexes of all nodes after every step; trusted: the observation function (obs_matches, highest-commit-index-held for a restarted node) and the probe; the label reconstruction is only a proposal that Coq accepts or refuses; steps without abstract counterpart are counted per documented class in evidence.outside_abstract_system",
         "abstract system DE.AbstractRaft (leader completeness proved there); guards met by C09 (commit only current-term entries with a voter majority), C01/C02 (election), C07/C08/C19 (follower step) at node level; refinement validated on simulated executions, not proved",
         "cluster simulator: real Raft objects; a restart rebuilds the node from its in-memory storage engine (what was written survives; MemFirst acknowledges before the write reaches the store)",
     ]
     run.assumptions += ["static membership (C26)", "crash = graceful restart or kill of the process with the storage engine's written state intact; the MemFirst window (ack before persist) is a documented design decision, see DESIGN.md"]
-    return cluster.check_cluster_property(run, PROPS_FILE if HAVE else None, CONE, ORACLES, kills=False, node_level=False, quick=(200, 60), thorough=(2000, 90))
+    return cluster.check_cluster_property(run, PROPS_FILE if HAVE else None, CONE, ORACLES, kills=False, node_level=False, quick=(200, 60), thorough=(2000, 90), refine=True)
 
 def replay(path): return cluster.replay_cluster(path, ORACLES)
 
